@@ -78,7 +78,7 @@ SPEC = {
     "gens": ["MacroTables"],
     "lean_modules": ["RsslVerif.Thm.C12"],
     "theorems": [T + n for n in [
-        "source_shape", "expand_terminates", "object_like_is_substitution", "function_like_is_substitution",
+        "source_shape", "expand_terminates", "expand_never_hangs", "object_like_is_substitution", "function_like_is_substitution",
         "define_undef_scoping", "api_duplicates_break_scoping", "api_defines_equal_file_defines_partial",
         "api_defines_differ_from_file_defines", "expand_refines_spec_partial", "include_is_paste", "pragma_once_once"]],
     "harness": "c12",
@@ -89,7 +89,7 @@ SPEC = {
     "level_text": "Proof, partial. Kernel-checked for every macro list, token list and include graph: the model's expansion "
                   "function (loop + recursive expansion of arguments and bodies of preprocess.rs, after the d00f5aa fix) is total by "
                   "the lexicographic measure (enabled macros, tokens right of next_pos) and its measure guards never fire "
-                  "(expand_terminates); invoking an object-like / function-like macro (n >= 1 parameters, arguments with nested "
+                  "(expand_terminates), and the non-advancing `continue` of find_single_macro is unreachable (expand_never_hangs); invoking an object-like / function-like macro (n >= 1 parameters, arguments with nested "
                   "parentheses and commas) on inert text yields the body with the arguments substituted; the macro list never holds "
                   "two entries of a name and lookup = latest #define not followed by #undef (from a duplicate-free start); #include = "
                   "the file's lines between two block boundaries; a #pragma once file contributes once; API defines and #define "
